@@ -64,6 +64,122 @@ type ctxAnalysis struct {
 	disp       *dispCtx
 	replayKeys keyset
 	replayMust map[*ssa.BasicBlock]world.Facts
+	// helpers of the dispatcher that receive its replay flag / its incoming context unchanged
+	replayP      map[*ssa.Parameter]bool
+	ctxP         map[*ssa.Parameter]bool
+	replayMustFn map[*ssa.Function]map[*ssa.BasicBlock]world.Facts
+}
+
+func (a *ctxAnalysis) isReplayP(v ssa.Value) bool {
+	p, ok := v.(*ssa.Parameter)
+	return ok && a.replayP[p]
+}
+
+func (a *ctxAnalysis) isCtxP(v ssa.Value) bool {
+	p, ok := v.(*ssa.Parameter)
+	return ok && a.ctxP[p]
+}
+
+func (a *ctxAnalysis) mustOf(fn *ssa.Function) map[*ssa.BasicBlock]world.Facts {
+	if a.disp != nil && fn == a.disp.fn {
+		return a.replayMust
+	}
+	if m, ok := a.replayMustFn[fn]; ok {
+		return m
+	}
+	var m map[*ssa.BasicBlock]world.Facts
+	for _, p := range fn.Params {
+		if a.replayP[p] {
+			m = world.Must(fn, a.replayEdgeGen, nil, nil)
+			break
+		}
+	}
+	a.replayMustFn[fn] = m
+	return m
+}
+
+// bindHelperParams finds the parameters of module functions that every call site binds to the
+// dispatcher's replay flag, respectively to its incoming context (a helper the dispatcher's
+// context preparation was moved into).
+func (a *ctxAnalysis) bindHelperParams() {
+	a.replayP = map[*ssa.Parameter]bool{}
+	a.ctxP = map[*ssa.Parameter]bool{}
+	a.replayMustFn = map[*ssa.Function]map[*ssa.BasicBlock]world.Facts{}
+	if a.disp == nil {
+		return
+	}
+	a.replayP[a.disp.replay] = true
+	a.ctxP[a.disp.ctxParam] = true
+	sites := map[*ssa.Function][]ssa.CallInstruction{}
+	for _, fn := range a.w.ModFns {
+		for _, c := range world.Calls(fn) {
+			if f := c.Common().StaticCallee(); f != nil && world.InModule(f) && f != a.disp.fn {
+				sites[f] = append(sites[f], c)
+			}
+		}
+	}
+	for iter := 0; iter < 4; iter++ {
+		changed := false
+		for f, cs := range sites {
+			for i, p := range f.Params {
+				isBool := types.Identical(p.Type().Underlying(), types.Typ[types.Bool])
+				if !isBool && !isCtxType(p.Type()) {
+					continue
+				}
+				if a.replayP[p] || a.ctxP[p] {
+					continue
+				}
+				all := true
+				for _, c := range cs {
+					args := c.Common().Args
+					if i >= len(args) || (isBool && !a.isReplayP(args[i])) || (!isBool && !a.isCtxP(args[i])) {
+						all = false
+						break
+					}
+				}
+				if all {
+					if isBool {
+						a.replayP[p] = true
+					} else {
+						a.ctxP[p] = true
+					}
+					changed = true
+				}
+			}
+		}
+		if !changed {
+			break
+		}
+	}
+}
+
+// returnKeys: the keys every context returned by a module function definitely carries.
+func (a *ctxAnalysis) returnKeys(f *ssa.Function, idx int, depth int) keyset {
+	var ks keyset
+	first := true
+	must := a.mustOf(f)
+	for _, ret := range world.Returns(f) {
+		{
+			b := ret.Block()
+			if idx >= len(ret.Results) || b == f.Recover {
+				continue
+			}
+			rv := world.RetVals(ret)[idx]
+			k := a.keysOf(rv, depth+1)
+			if a.isCtxP(rv) && must != nil && must[b]&factReplay != 0 {
+				k = a.replayKeys
+			}
+			if first {
+				ks, first = k, false
+			} else {
+				ks = ksInter(ks, k)
+			}
+		}
+	}
+	if first {
+		return keyset{}
+	}
+	return ks
 }
 
 const factReplay world.Facts = 1 << 30
@@ -81,7 +197,7 @@ func (a *ctxAnalysis) replayEdgeGen(b *ssa.BasicBlock, si int) world.Facts {
 	if u, ok := c.(*ssa.UnOp); ok && u.Op.String() == "!" {
 		c, neg = u.X, true
 	}
-	if c == ssa.Value(a.disp.replay) && (si == 0) != neg {
+	if a.isReplayP(c) && (si == 0) != neg {
 		return factReplay
 	}
 	return 0
@@ -89,11 +205,15 @@ func (a *ctxAnalysis) replayEdgeGen(b *ssa.BasicBlock, si int) world.Facts {
 
 // onReplayEdge: the phi edge i is taken only when replay == true.
 func (a *ctxAnalysis) onReplayEdge(phi *ssa.Phi, i int) bool {
-	if a.disp == nil || phi.Parent() != a.disp.fn || a.replayMust == nil {
+	if a.disp == nil {
+		return false
+	}
+	must := a.mustOf(phi.Parent())
+	if must == nil {
 		return false
 	}
 	p := phi.Block().Preds[i]
-	f := a.replayMust[p]
+	f := must[p]
 	for si, sc := range p.Succs {
 		if sc == phi.Block() {
 			f |= a.replayEdgeGen(p, si)
@@ -140,9 +260,20 @@ func (a *ctxAnalysis) keysOf(v ssa.Value, depth int) keyset {
 			case "context.WithCancel", "context.WithTimeout", "context.WithDeadline":
 				return a.keysOf(x.Call.Args[0], depth+1)
 			}
+			if world.InModule(f) && f.Blocks != nil {
+				res := f.Signature.Results()
+				if res.Len() == 1 && isCtxType(res.At(0).Type()) {
+					return a.returnKeys(f, 0, depth)
+				}
+			}
 		}
 		return keyset{}
 	case *ssa.Extract:
+		if c, ok := x.Tuple.(*ssa.Call); ok {
+			if f := c.Call.StaticCallee(); f != nil && world.InModule(f) && f.Blocks != nil && isCtxType(x.Type()) {
+				return a.returnKeys(f, x.Index, depth)
+			}
+		}
 		return a.keysOf(x.Tuple, depth+1)
 	case *ssa.Phi:
 		var ks keyset
@@ -152,7 +283,7 @@ func (a *ctxAnalysis) keysOf(v ssa.Value, depth int) keyset {
 				continue
 			}
 			k := a.keysOf(e, depth+1)
-			if a.disp != nil && e == ssa.Value(a.disp.ctxParam) && a.onReplayEdge(x, i) {
+			if a.disp != nil && a.isCtxP(e) && a.onReplayEdge(x, i) {
 				k = a.replayKeys
 			}
 			if first {
@@ -209,6 +340,7 @@ func ctxOf(w *world.World) *ctxAnalysis {
 	a := &ctxAnalysis{w: w, param: map[*ssa.Parameter]keyset{}, fv: map[*ssa.FreeVar]keyset{}}
 	if d, err := getDisp(w); err == nil {
 		a.disp = d
+		a.bindHelperParams()
 		a.replayMust = world.Must(d.fn, a.replayEdgeGen, nil, nil)
 	}
 	cg := w.VTA()
@@ -693,14 +825,91 @@ func derivesFromNoArith(v ssa.Value, pred func(ssa.Value) bool) bool {
 					return any
 				}
 				if fv, ok := x.X.(*ssa.FreeVar); ok {
-					_ = fv
-					return false
+					// a variable of the enclosing function captured by reference: every value stored
+					// into it (in any function) must qualify
+					al, ok := freeVarBinding(fv).(*ssa.Alloc)
+					if !ok {
+						return false
+					}
+					any := false
+					for _, st := range storesThroughClosures(al) {
+						if !walk(st.Val, d+1) {
+							return false
+						}
+						any = true
+					}
+					return any
 				}
+			}
+		case *ssa.FreeVar:
+			// captured by value: the enclosing function's value at the closure's creation
+			if bnd := freeVarBinding(x); bnd != nil {
+				return walk(bnd, d+1)
 			}
 		}
 		return false
 	}
 	return walk(v, 0)
+}
+
+// freeVarBinding: the value the enclosing function binds to a closure's free variable (nil when
+// the closure is created at more than one place with different bindings).
+func freeVarBinding(fv *ssa.FreeVar) ssa.Value {
+	cf := fv.Parent()
+	if cf == nil || cf.Parent() == nil {
+		return nil
+	}
+	idx := -1
+	for i, f := range cf.FreeVars {
+		if f == fv {
+			idx = i
+		}
+	}
+	var out ssa.Value
+	for _, b := range cf.Parent().Blocks {
+		for _, in := range b.Instrs {
+			mc, ok := in.(*ssa.MakeClosure)
+			if !ok || mc.Fn != ssa.Value(cf) || idx < 0 || idx >= len(mc.Bindings) {
+				continue
+			}
+			if out != nil && out != mc.Bindings[idx] {
+				return nil
+			}
+			out = mc.Bindings[idx]
+		}
+	}
+	return out
+}
+
+// storesThroughClosures: the stores into a local variable, in its function and in the closures
+// that capture it by reference.
+func storesThroughClosures(al *ssa.Alloc) []*ssa.Store {
+	var out []*ssa.Store
+	seen := map[ssa.Value]bool{}
+	var visit func(addr ssa.Value)
+	visit = func(addr ssa.Value) {
+		if seen[addr] || addr.Referrers() == nil {
+			return
+		}
+		seen[addr] = true
+		for _, ref := range *addr.Referrers() {
+			switch x := ref.(type) {
+			case *ssa.Store:
+				if x.Addr == addr {
+					out = append(out, x)
+				}
+			case *ssa.MakeClosure:
+				cf := x.Fn.(*ssa.Function)
+				for i, bnd := range x.Bindings {
+					if bnd == addr && i < len(cf.FreeVars) {
+						visit(cf.FreeVars[i])
+					}
+				}
+			}
+		}
+	}
+	visit(al)
+	return out
 }
 
 // ---- N3 ----
@@ -746,7 +955,7 @@ func ruleN3(w *world.World, r *report.RuleResult) {
 			if u, ok := c.(*ssa.UnOp); ok && u.Op.String() == "!" {
 				c, neg = u.X, true
 			}
-			if c == ssa.Value(d.replay) && (si == 1) != neg {
+			if world.Forward(c) == ssa.Value(d.replay) && (si == 1) != neg {
 				return NR
 			}
 			return 0
